@@ -254,8 +254,9 @@ func (it *Interp) block(fr *frame, b, prev *ssa.BasicBlock, st *State, k cont) {
 	if isLoopHeader(b) {
 		limit = 2
 	}
-	if fr.visits[b] >= limit {
-		return // loop summarised: at most one iteration per path
+	over := fr.visits[b] >= limit
+	if over && fr.visits[b] >= 12 {
+		return
 	}
 	fr.visits[b]++
 	i := 0
@@ -281,6 +282,38 @@ func (it *Interp) block(fr *frame, b, prev *ssa.BasicBlock, st *State, k cont) {
 	}
 	for j, phi := range phis {
 		fr.env[phi] = vals[j]
+	}
+	if over {
+		// loop summarised: at most one iteration per path - except when this block's branch is decided by constants
+		// (a loop driven by a state variable: 'for step := load; step != done; { switch step {...} }'): such iterations
+		// are concrete steps, not an unrolling of a data-dependent loop
+		concrete := false
+		if iff, ok := b.Instrs[len(b.Instrs)-1].(*ssa.If); ok {
+			onlyPure := true
+			for _, in := range b.Instrs[i : len(b.Instrs)-1] {
+				switch in.(type) {
+				case *ssa.BinOp, *ssa.UnOp, *ssa.Convert, *ssa.ChangeType, *ssa.DebugRef:
+				default:
+					onlyPure = false
+				}
+			}
+			if onlyPure {
+				// evaluate the pure prefix, then the condition
+				for _, in := range b.Instrs[i : len(b.Instrs)-1] {
+					if v, isV := in.(ssa.Value); isV {
+						fr.env[v] = it.valRaw(fr, v, st)
+					}
+				}
+				if c := it.val(fr, iff.Cond, st); c != nil {
+					if _, isB := c.BoolVal(); isB {
+						concrete = true
+					}
+				}
+			}
+		}
+		if !concrete {
+			return
+		}
 	}
 	it.instrs(fr, b, i, st, k)
 }
@@ -811,6 +844,15 @@ func (it *Interp) doCall(fr *frame, c ssa.CallInstruction, st *State, k cont) {
 	}
 	// dynamic call of a function value
 	fv := it.val(fr, cc.Value, st)
+	// a package-level function variable that is assigned exactly once (its initialiser) and never again is that function
+	if ld, ok := cc.Value.(*ssa.UnOp); ok {
+		if g, isG := ld.X.(*ssa.Global); isG {
+			if fn := it.singleFuncOfGlobal(g); fn != nil {
+				it.call(fn, args, nil, st, fr.depth+1, k)
+				return
+			}
+		}
+	}
 	switch {
 	case fv.Op == "closure":
 		it.call(fv.Fn.(*ssa.Function), args, fv.Bind, st, fr.depth+1, k)
@@ -1184,4 +1226,54 @@ func DescribePC(pc []Atom) string {
 		}
 	}
 	return strings.Join(s, " & ")
+}
+
+// singleFuncOfGlobal: the only store to the global in its package is 'g = <function>' (in the package initialiser).
+func (it *Interp) singleFuncOfGlobal(g *ssa.Global) *ssa.Function {
+	var fn *ssa.Function
+	n := 0
+	var roots []*ssa.Function
+	for _, f := range it.P.Funcs {
+		if f.Pkg == g.Pkg && f.Parent() == nil {
+			roots = append(roots, f)
+		}
+	}
+	if init := g.Pkg.Func("init"); init != nil {
+		roots = append(roots, init)
+	}
+	seenF := map[*ssa.Function]bool{}
+	for _, f := range roots {
+		if seenF[f] {
+			continue
+		}
+		seenF[f] = true
+		var scan func(f *ssa.Function)
+		scan = func(f *ssa.Function) {
+			for _, b := range f.Blocks {
+				for _, in := range b.Instrs {
+					if st, ok := in.(*ssa.Store); ok && st.Addr == ssa.Value(g) {
+						n++
+						switch v := st.Val.(type) {
+						case *ssa.Function:
+							fn = v
+						case *ssa.MakeClosure:
+							if len(v.Bindings) == 0 {
+								fn, _ = v.Fn.(*ssa.Function)
+							}
+						}
+					}
+				}
+			}
+			for _, a := range f.AnonFuncs {
+				scan(a)
+			}
+		}
+		scan(f)
+	}
+	// methods are not package members: scan them through the program's method sets is not needed for a variable that
+	// only the initialiser may assign - any other store anywhere in the package's functions counts
+	if n == 1 {
+		return fn
+	}
+	return nil
 }
